@@ -34,7 +34,8 @@ LEVEL_TEXT = ("Props/C10.lean (complete, release mode): parseNumber_total / pars
               "fraction_digits.unwrap(): excluded by a counting argument); phases_preserve_invariant; foldExponent_lt and "
               "exponent_within_i64 (explicit_exponent < 0x10000000*radix+radix, |exponent| < 2^63 for inputs < 2^59 bytes); "
               "parseInt_total for the 12 integer types (from C04). Props/C10Debug.lean (debug-assertion build): the unrestricted "
-              "statement is FALSE (not_parse_total_debug), with decided witnesses for two excluded classes: a component with flags I+T+C "
+              "statement is FALSE (not_parse_total_debug), with decided witnesses for two excluded classes (the first concerns the is_itc! predicate before /repo 5dae23b and no longer reproduces on the "
+              "implementation; the class hypothesis ValidNoItc is kept because RescanSafe was not re-proved for the repaired predicate): a component with flags I+T+C "
               "without L whose stored slice starts with a separator (sep_itc, RUST/SWIFT literals: '1._1234567890123456789'), and a "
               "separator equal up to ASCII case to the exponent character / base prefix / base suffix. Outside these classes the full "
               "statement is PROVED for the entry points (parseNumber_no_panic_debug_full_proved / parseFloatSyntax_no_panic_debug_noitc, "
